@@ -511,10 +511,18 @@ func (g *Gated) endIdle(si int) {
 		return
 	}
 	res := &wire.Result{Tag: s.IdleTag}
+	completed := false
 	for _, l := range lines {
 		if l.Tag == s.IdleTag {
 			res.Status, res.Code, res.Text = l.Status, l.Code, l.Text
+			completed = true
 		} else {
+			if n, kw, ok := l.Num(); ok && kw == "EXPUNGE" && completed && g.PipeAfterDone {
+				// (C05) the client has sent nothing after DONE: this removal is announced by no
+				// command at all, and it will land in whatever the client sends next
+				g.E.FailSig("expunge-in-forbidding", "after the completion of idle", "%s received \"* %d EXPUNGE\" after the tagged completion of IDLE, with no command in progress", s.Label, n)
+				return
+			}
 			res.Lines = append(res.Lines, l)
 		}
 	}
